@@ -1072,7 +1072,7 @@ func nilResidualC10(c *Ctx, ce *ssa.Function) {
 				continue
 			}
 			bo, ok := ifi.Cond.(*ssa.BinOp)
-			if !ok || bo.Op != token.EQL {
+			if !ok || (bo.Op != token.EQL && bo.Op != token.NEQ) {
 				continue
 			}
 			kc, isC := bo.Y.(*ssa.Const)
@@ -1080,7 +1080,10 @@ func nilResidualC10(c *Ctx, ce *ssa.Function) {
 				continue
 			}
 			tb := d.Succs[0]
-			if !(tb == b || (len(tb.Preds) == 1 && tb.Dominates(b))) {
+			if bo.Op == token.NEQ {
+				tb = d.Succs[1]
+			}
+			if !(len(tb.Preds) == 1 && (tb == b || tb.Dominates(b))) {
 				continue
 			}
 			switch x := bo.X.(type) {
